@@ -360,7 +360,11 @@ def judge_malformed(case):
 
 @st.composite
 def to_string_case(draw):
-    d = draw(gen.nested_dicts(keys=KEYS, depth=3, leaf=gen.json_leaves))
+    # leaves may be lists that hold dictionaries (contexts of groups look like that)
+    inner = st.dictionaries(st.sampled_from(KEYS), st.one_of(st.integers(2, 9), st.sampled_from(["s", "t", None])), min_size=1, max_size=3)
+    leaf = st.one_of(gen.json_leaves, gen.json_leaves, gen.json_leaves,
+                     st.lists(st.one_of(inner, st.integers(2, 5)), min_size=1, max_size=3))
+    d = draw(gen.nested_dicts(keys=KEYS, depth=3, leaf=leaf))
     muts = draw(st.lists(st.tuples(st.integers(0, 30), st.sampled_from(["set", "del", "add"]),
                                    gen.json_leaves), max_size=2))
     return {"d": d, "muts": [list(m) for m in muts], "order_seed": draw(st.integers(0, 5))}
@@ -373,6 +377,9 @@ def _reorder(d, seed):
             keys = keys[::-1]
         k2 = keys[seed % len(keys):] + keys[:seed % len(keys)] if keys else keys
         return dict((k, _reorder(d[k], seed + 1)) for k in k2)
+    if isinstance(d, list):
+        # the order of a list matters, the key order of dictionaries inside it does not
+        return [_reorder(x, seed + 1) for x in d]
     return copy.deepcopy(d)
 
 
